@@ -252,6 +252,16 @@ class Gate:
             self.busy = True
             self.pos += 1
 
+    def wait_start(self, pid):
+        """a run begins (its start-up code included) when the schedule first reaches it"""
+        with self.cv:
+            while True:
+                while self.pos < len(self.schedule) and self.schedule[self.pos] in self.done:
+                    self.pos += 1
+                if not self.busy and (self.pos >= len(self.schedule) or self.schedule[self.pos] == pid):
+                    return
+                self.cv.wait(timeout=2)
+
     def release(self):
         with self.cv:
             self.busy = False
@@ -283,6 +293,7 @@ def replay_schedule(schedule, n, config_exists, same_gtf):
 
             def body(p=p, name=name):
                 try:
+                    gate.wait_start(p)
                     one_run(home, name, Recorder(cfg, gate, p), errors[p])
                 finally:
                     gate.finish(p)
@@ -333,7 +344,10 @@ def lane(n, config_exists, same_gtf):
         if verdict == "unsat":
             st["discharged"] += 1
             # model validation: the non-overlapping and a round-robin schedule are replayed with real threads and files
-            for sched in ([p for p in range(n) for _ in range(len(trace))], [p for _ in range(len(trace)) for p in range(n)]):
+            # ... and one in which run 0 is stopped right before its last operation (its private temporary copy exists) while the
+            # other runs start, work and finish
+            held = [0] * (len(trace) - 1) + [p for p in range(1, n) for _ in range(len(trace))] + [0]
+            for sched in ([p for p in range(n) for _ in range(len(trace))], [p for _ in range(len(trace)) for p in range(n)], held):
                 st["obligations"] += 1
                 errs2 = replay_schedule(sched, n, config_exists, same_gtf)
                 if errs2:
